@@ -259,6 +259,47 @@ def gen_session_facts(root, report):
             removes_option = True
     if quit_src is None:
         raise TranslateError('quit test of CrackingSession.run not found')
+    # what depends on the guess limit: every statement of `run` (and the methods it calls) that is executed or skipped according to a test
+    # that reads `limit` - the `if limit` blocks with their `elif` / `else` branches, and everything nested in them.  The session model has no
+    # limit: it stands for limited runs only as long as the limit does nothing but count down and end the run
+    def mentions_limit(e):
+        return any(isinstance(x, ast.Name) and x.id == 'limit' for x in ast.walk(e))
+
+    def kind_of(st):
+        if isinstance(st, ast.Return):
+            return 'return'
+        if isinstance(st, ast.Break):
+            return 'break'
+        if isinstance(st, (ast.Assign, ast.AugAssign)):
+            tgt = st.targets[0] if isinstance(st, ast.Assign) and len(st.targets) == 1 else getattr(st, 'target', None)
+            if isinstance(tgt, ast.Name) and tgt.id == 'limit':
+                return 'count-down'
+        if isinstance(st, ast.Expr) and isinstance(st.value, ast.Call) and ast.unparse(st.value.func) == 'print' \
+                and any(k.arg == 'file' and ast.unparse(k.value) == 'sys.stderr' for k in st.value.keywords):
+            return 'print-stderr'
+        if isinstance(st, ast.Pass):
+            return 'pass'
+        return 'other: ' + ' '.join(ast.unparse(st).split())[:80]
+
+    limit_dep = []
+
+    def dependent(sts):
+        for st in sts:
+            if isinstance(st, ast.If):
+                dependent(st.body)
+                dependent(st.orelse)
+            elif isinstance(st, (ast.For, ast.While, ast.With, ast.Try)):
+                limit_dep.append('other: ' + ' '.join(ast.unparse(st).split())[:80])
+            else:
+                limit_dep.append(kind_of(st))
+    for f in reach:
+        for n in ast.walk(f):
+            if isinstance(n, ast.If) and mentions_limit(n.test):
+                # an `if` nested in another limit test is reached through its parent as well: count it once (at the outermost one)
+                dependent(n.body)
+                dependent(n.orelse)
+    limit_dep = sorted(set(limit_dep))
+    report['limit_dependent_statements'] = limit_dep
     # keypress: is should_exit also set when the status printout fails on a q line?
     kp = next((n for n in ast.walk(tree) if isinstance(n, ast.FunctionDef) and n.name == 'keypress'), None)
     keeps_q = False
@@ -339,6 +380,9 @@ def quitSrc : QuitSrc := .{quit_src}
 
 /-- `run()` removes `omen_guess_number` from the save config once a restored OMEN level is finished -/
 def removesOmenOption : Bool := {'true' if removes_option else 'false'}
+
+/-- the kinds of statement whose execution depends on a test that reads the guess limit (in `run` and the methods it calls) -/
+def limitDependentStatements : List String := [{', '.join(lean_str(x) for x in limit_dep)}]
 
 /-- `keypress` keeps a quit request when printing the status fails -/
 def keepsQuitOnStatusFailure : Bool := {'true' if keeps_q else 'false'}
